@@ -50,3 +50,7 @@ Definition sel_matvec (a1 : float) (n : nat) (rows : list nat) (d : vec) : vec :
 (* r -= w (in place: the shape of r is kept) *)
 Fixpoint vinplace (f : float -> float -> float) (a b : vec) : vec :=
   match a, b with x_ :: a', y_ :: b' => f x_ y_ :: vinplace f a' b' | _, _ => a end.
+
+(* a[i] = v for an integer index inside the array *)
+Fixpoint np_setitem (i : nat) (v : float) (a : vec) : vec :=
+  match a, i with [], _ => [] | _ :: r_, O => v :: r_ | h_ :: r_, S k_ => h_ :: np_setitem k_ v r_ end.
